@@ -184,10 +184,14 @@ def run(ctx):
     model = {}
     model_failed = None
     try:
+        # round-robin over the parallel coqc shards: the expensive (large n) cases are adjacent in the list
+        nsh_eval = 16
+        order = sorted(range(len(exprs)), key=lambda i: (i % nsh_eval, i))
+        per = (len(exprs) + nsh_eval - 1) // nsh_eval
         terms = c.coq_eval(ctx, "c08", "From Coq Require Import ZArith List. Import ListNotations.\n"
-                           "From CB Require Import Crypto.IdPipeline.", exprs, shard=max(20, len(exprs) // 14 + 1), timeout=1500)
-        for t, tag in zip(terms, slots):
-            model[tag] = t
+                           "From CB Require Import Crypto.IdPipeline.", [exprs[i] for i in order], shard=max(1, per), timeout=1500)
+        for i, t in zip(order, terms):
+            model[slots[i]] = t
     except Exception as e:  # the model does not build/evaluate: a broken tie
         model_failed = repr(e)[-1500:]
         ctx.log("model evaluation failed:", model_failed)
@@ -309,6 +313,16 @@ def run(ctx):
             nontrivial.add(key)
             bump("cred_above_%s" % ("unproducible" if r.get("created") != "Ok" else "rejected"))
         ctx.cov["traces_validated_against_impl"] += 1
+    for r in by.get("forged", []):
+        # counter above the limit signed by the provider, identity object forged to claim max_accounts = 255
+        key = c.digest(["forged", r["cfg"], r["acct"]])
+        seen.add(key)
+        bump("forged_max_accounts_" + ("rejected" if r.get("verified") != "OK" else "ACCEPTED"))
+        if r.get("created") == "Ok" and r.get("verified") == "OK":
+            ctx.violation({"case": r, "seed": ctx.seed, "tier": ctx.tier, "how": "c08 replay < this file"},
+                          "credential with counter %d above the signed max_accounts %d ACCEPTED by verify_cdi" % (r["counter"], r["max"]))
+        else:
+            nontrivial.add(key)
     for r in by.get("leq", []):
         a, b = r["a"], r["b"]
         m = model.get(("leq", a, b))
